@@ -582,6 +582,10 @@ let run_a args =
     let (ds, dy) = bits wbits and (_, iy) = bits ibits in
     let a = { d_send = ds; d_sync = dy; r_send = true; r_sync = true } in
     verdict (view_ok node_sync_bounds a iy && other_marker_impls = O)
+  | ["skind"; _h; kbits; _tr] ->
+    (* a handle over thread-safe data and a kind type with the given Send/Sync bits: the kind type must not matter *)
+    let (ks, ky) = bits kbits in
+    verdict (sat node_kind_bounds ks ky)
   | ["green"; _t; _tr] -> verdict green_token_unconditional
   | _ -> "BAD-CASE"
 
